@@ -111,7 +111,7 @@ func (d *dropCounter) LogError(v ...interface{}) {
 // ---- messages -------------------------------------------------------------------------------------
 
 var markRe = regexp.MustCompile(`m\|\d+\|\d+\|[oe]\|`)
-var msgRe = regexp.MustCompile(`m\|(\d+)\|(\d+)\|([oe])\|([a-z]*)\|([0-9a-f]{8})\|`)
+var msgRe = regexp.MustCompile(`m\|(\d+)\|(\d+)\|([oe])\|([a-zT% 0-9:=,._-]*)\|([0-9a-f]{8})\|`)
 
 func message(p, seq int, stream string, rng *rand.Rand) string {
 	n := 1 + rng.Intn(40)
@@ -119,8 +119,17 @@ func message(p, seq int, stream string, rng *rand.Rand) string {
 		n = 200 + rng.Intn(800)
 	}
 	b := make([]byte, n)
+	// letters, and what a formatting layer on the way could take for a directive: percent signs (alone, doubled, before a verb
+	// letter or a digit), digits, blanks, a colon, an equals sign - nothing an encoder of the sinks has to escape
+	const alphabet = "abcdefghijklmnopqrstuvwxyzdsvqxT%%%% 0123456789:=,._-"
 	for i := range b {
-		b[i] = byte('a' + rng.Intn(26))
+		b[i] = alphabet[rng.Intn(len(alphabet))]
+	}
+	if b[0] == ' ' {
+		b[0] = 'a' // some sinks trim
+	}
+	if b[n-1] == ' ' {
+		b[n-1] = 'z'
 	}
 	body := fmt.Sprintf("m|%d|%d|%s|%s", p, seq, stream, b)
 	return fmt.Sprintf("%s|%08x|", body, crc32.ChecksumIEEE([]byte(body)))
